@@ -39,20 +39,7 @@ Proof.
   - destruct s; [discriminate|]. destruct (a =? n) eqn:E; [|discriminate]. nb. subst. cbn [app]. f_equal. auto.
 Qed.
 
-Lemma fold_extra_cases : forall c w, fold_extra c = Some w ->
-  (lower c = 115 /\ w = [197; 191]) \/ (lower c = 107 /\ w = [226; 132; 170]).
-Proof.
-  intros c w. unfold fold_extra.
-  destruct (lower c =? 115) eqn:E1; [intros H; inversion H; nb; auto|].
-  destruct (lower c =? 107) eqn:E2; [intros H; inversion H; nb; auto|]. discriminate.
-Qed.
-
-Lemma lower_115 : forall c, lower c = 115 -> c = 83 \/ c = 115.
-Proof. intros c H. destruct (lower_cases c) as [[? E]|[? E]]; rewrite E in H; lia. Qed.
-Lemma lower_107 : forall c, lower c = 107 -> c = 75 \/ c = 107.
-Proof. intros c H. destruct (lower_cases c) as [[? E]|[? E]]; rewrite E in H; lia. Qed.
-
-Lemma lower_eq_ci : forall b c, lower b = lower c -> ci_char true c [b].
+Lemma lower_eq_ci : forall b c, lower b = lower c -> ci_char c [b].
 Proof.
   intros b c H.
   destruct (lower_cases b) as [[Hb Eb]|[Hb Eb]]; destruct (lower_cases c) as [[Hc Ec]|[Hc Ec]]; rewrite Eb, Ec in H.
@@ -62,20 +49,14 @@ Proof.
   - subst. constructor.
 Qed.
 
-Lemma eat_char_sound : forall c s w r, eat_char c s = Some (w, r) -> s = w ++ r /\ ci_char true c w.
+Lemma eat_char_sound : forall c s w r, eat_char c s = Some (w, r) -> s = w ++ r /\ ci_char c w.
 Proof.
   intros c s w r H. unfold eat_char in H. destruct s as [|b s']; [discriminate|].
-  destruct (lower b =? lower c) eqn:E.
-  - inversion H; subst. nb. split; auto. apply lower_eq_ci; auto.
-  - destruct (fold_extra c) as [x|] eqn:F; [|discriminate].
-    destruct (strip_prefix x (b :: s')) as [r'|] eqn:P; [|discriminate]. inversion H; subst.
-    apply strip_prefix_sound in P. split; auto.
-    apply fold_extra_cases in F. destruct F as [[L ->]|[L ->]].
-    + apply ci_long_s; auto. apply lower_115; auto.
-    + apply ci_kelvin; auto. apply lower_107; auto.
+  destruct (lower b =? lower c) eqn:E; [|discriminate].
+  inversion H; subst. nb. split; auto. apply lower_eq_ci; auto.
 Qed.
 
-Lemma eat_char_complete : forall c w r, ci_char true c w -> eat_char c (w ++ r) = Some (w, r).
+Lemma eat_char_complete : forall c w r, ci_char c w -> eat_char c (w ++ r) = Some (w, r).
 Proof.
   intros c w r H. inversion H; subst; cbn [app]; unfold eat_char.
   - rewrite N.eqb_refl. auto.
@@ -83,11 +64,9 @@ Proof.
     destruct (lower_cases (c + 32)) as [[? E]|[? E]]; destruct (lower_cases c) as [[? E']|[? E']]; rewrite E, E'; lia.
   - replace (lower (c - 32) =? lower c) with true; auto. symmetry. apply N.eqb_eq.
     destruct (lower_cases (c - 32)) as [[? E]|[? E]]; destruct (lower_cases c) as [[? E']|[? E']]; rewrite E, E'; lia.
-  - destruct H1 as [-> | ->]; reflexivity.
-  - destruct H1 as [-> | ->]; reflexivity.
 Qed.
 
-Lemma match_kw_sound : forall kw s w r, match_kw kw s = Some (w, r) -> s = w ++ r /\ ci_str true kw w.
+Lemma match_kw_sound : forall kw s w r, match_kw kw s = Some (w, r) -> s = w ++ r /\ ci_str kw w.
 Proof.
   induction kw as [|c kw IH]; intros s w r H; cbn [match_kw] in H.
   - inversion H; subst. split; auto. constructor.
@@ -97,7 +76,7 @@ Proof.
     split; [rewrite app_assoc; auto | constructor; auto].
 Qed.
 
-Lemma match_kw_complete : forall kw w r, ci_str true kw w -> match_kw kw (w ++ r) = Some (w, r).
+Lemma match_kw_complete : forall kw w r, ci_str kw w -> match_kw kw (w ++ r) = Some (w, r).
 Proof.
   intros kw w r H. revert r. induction H; intros r; cbn [match_kw]; auto.
   rewrite <- app_assoc. rewrite eat_char_complete by auto. rewrite IHci_str. auto.
@@ -115,36 +94,16 @@ Definition ascii_word (w : list N) : bool := forallb (fun b => b <? 128) w.
 Lemma lower_ascii : forall c, c < 128 -> lower c < 128.
 Proof. intros c H. destruct (lower_cases c) as [[? E]|[? E]]; rewrite E; lia. Qed.
 
-Lemma eat_char_det : forall c1 c2 s x y, c1 < 128 -> c2 < 128 ->
+Lemma eat_char_det : forall c1 c2 s x y,
   eat_char c1 s = Some x -> eat_char c2 s = Some y -> lower c1 = lower c2.
 Proof.
-  intros c1 c2 s x y A1 A2 H1 H2. unfold eat_char in *. destruct s as [|b s']; [discriminate|].
-  pose proof (lower_ascii _ A1). pose proof (lower_ascii _ A2).
-  destruct (lower b =? lower c1) eqn:E1; destruct (lower b =? lower c2) eqn:E2; nb; try congruence.
-  - destruct (fold_extra c2) as [w|] eqn:F; [|discriminate].
-    destruct (strip_prefix w (b :: s')) eqn:P; [|discriminate].
-    apply fold_extra_cases in F. cbn [strip_prefix] in P.
-    destruct F as [[L ->]|[L ->]]; cbn [strip_prefix] in P;
-      match type of P with (if ?a =? b then _ else _) = _ => destruct (a =? b) eqn:Eb; [|discriminate] end;
-      nb; subst b; destruct (lower_cases 197) as [[? E]|[? E]]; destruct (lower_cases 226) as [[? E']|[? E']]; lia.
-  - destruct (fold_extra c1) as [w|] eqn:F; [|discriminate].
-    destruct (strip_prefix w (b :: s')) eqn:P; [|discriminate].
-    apply fold_extra_cases in F.
-    destruct F as [[L ->]|[L ->]]; cbn [strip_prefix] in P;
-      match type of P with (if ?a =? b then _ else _) = _ => destruct (a =? b) eqn:Eb; [|discriminate] end;
-      nb; subst b; destruct (lower_cases 197) as [[? E]|[? E]]; destruct (lower_cases 226) as [[? E']|[? E']]; lia.
-  - destruct (fold_extra c1) as [w1|] eqn:F1; [|discriminate].
-    destruct (strip_prefix w1 (b :: s')) eqn:P1; [|discriminate].
-    destruct (fold_extra c2) as [w2|] eqn:F2; [|discriminate].
-    destruct (strip_prefix w2 (b :: s')) eqn:P2; [|discriminate].
-    apply fold_extra_cases in F1. apply fold_extra_cases in F2.
-    destruct F1 as [[L1 ->]|[L1 ->]]; destruct F2 as [[L2 ->]|[L2 ->]]; try congruence;
-      cbn [strip_prefix] in P1, P2;
-      destruct (197 =? b) eqn:Ea; destruct (226 =? b) eqn:Eb; try discriminate; nb; lia.
+  intros c1 c2 s x y H1 H2. unfold eat_char in *. destruct s as [|b s']; [discriminate|].
+  destruct (lower b =? lower c1) eqn:E1; [|discriminate]. destruct (lower b =? lower c2) eqn:E2; [|discriminate].
+  nb. congruence.
 Qed.
 
 Lemma eat_char_lower : forall c1 c2 s, lower c1 = lower c2 -> eat_char c1 s = eat_char c2 s.
-Proof. intros. unfold eat_char, fold_extra. rewrite H. auto. Qed.
+Proof. intros. unfold eat_char. rewrite H. auto. Qed.
 
 Lemma match_kw_incompat : forall k1 k2 s x y,
   ascii_word k1 = true -> ascii_word k2 = true -> first_diff k1 k2 = true ->
@@ -157,7 +116,7 @@ Proof.
   cbn [match_kw] in H1, H2.
   destruct (eat_char c1 s) as [[w1 r1]|] eqn:E1; [|discriminate].
   destruct (eat_char c2 s) as [[w2 r2]|] eqn:E2; [|discriminate].
-  pose proof (eat_char_det _ _ _ _ _ B1 B2 E1 E2) as L.
+  pose proof (eat_char_det _ _ _ _ _ E1 E2) as L.
   rewrite (eat_char_lower _ _ s L) in E1. rewrite E1 in E2. inversion E2; subst.
   apply N.eqb_eq in L. rewrite L in D.
   destruct (match_kw k1 r2) eqn:M1; [|discriminate]. destruct (match_kw k2 r2) eqn:M2; [|discriminate].
@@ -246,7 +205,7 @@ Qed.
 
 (* ------------------------------------------------------------------ arguments *)
 Definition arg_spec (k : argkind) (a : list N) : Prop :=
-  match k with ADigits => digits1 a | AWord w => ci_str true w a end.
+  match k with ADigits => digits1 a | AWord w => ci_str w a end.
 Definition ArgOk (ks : list argkind) (a : list N) : Prop := exists k, In k ks /\ arg_spec k a.
 
 Lemma match_arg_sound : forall k s a r, match_arg k s = Some (a, r) -> s = a ++ r /\ arg_spec k a.
@@ -277,8 +236,8 @@ Definition arg_incompat (k1 k2 : argkind) : bool :=
 Fixpoint pairwise {A} (p : A -> A -> bool) (l : list A) : bool :=
   match l with [] => true | x :: r => forallb (p x) r && pairwise p r end.
 
-(* first byte of a word's spelling: a letter or one of the two fold lead bytes *)
-Definition wordhead (b : N) : Prop := 65 <= b <= 90 \/ 97 <= b <= 122 \/ b = 197 \/ b = 226.
+(* first byte of a word's spelling: a letter *)
+Definition wordhead (b : N) : Prop := 65 <= b <= 90 \/ 97 <= b <= 122.
 
 Lemma is_letter_iff : forall c, is_letter c = true -> 65 <= c <= 90 \/ 97 <= c <= 122.
 Proof.
@@ -286,13 +245,13 @@ Proof.
   destruct (lower_cases c) as [[? E]|[? E]]; rewrite E in *; lia.
 Qed.
 
-Lemma ci_char_head : forall c w, is_letter c = true -> ci_char true c w -> exists b t, w = b :: t /\ wordhead b.
+Lemma ci_char_head : forall c w, is_letter c = true -> ci_char c w -> exists b t, w = b :: t /\ wordhead b.
 Proof.
   intros c w L H. apply is_letter_iff in L. unfold wordhead.
   inversion H; subst; eexists; eexists; (split; [reflexivity|]); lia.
 Qed.
 
-Lemma word_head : forall w a, word_ok w = true -> ci_str true w a -> exists b t, a = b :: t /\ wordhead b.
+Lemma word_head : forall w a, word_ok w = true -> ci_str w a -> exists b t, a = b :: t /\ wordhead b.
 Proof.
   intros w a H C. unfold word_ok in H. apply andb_true_iff in H. destruct H as [_ HL].
   destruct w as [|c w]; [discriminate|]. cbn [head_letter] in HL.
@@ -313,12 +272,8 @@ Proof.
   destruct w as [|c w]; [discriminate|]. cbn [head_letter] in H0.
   cbn [match_kw]. replace (eat_char c (b :: t)) with (@None (list N * list N)); auto. symmetry.
   unfold eat_char. unfold digitP in D. apply is_letter_iff in H0.
-  destruct (lower b =? lower c) eqn:E; nb.
-  - destruct (lower_cases b) as [[? Eb]|[? Eb]]; destruct (lower_cases c) as [[? Ec]|[? Ec]]; rewrite Eb, Ec in E; lia.
-  - destruct (fold_extra c) as [x|] eqn:F; auto. apply fold_extra_cases in F.
-    destruct F as [[_ ->]|[_ ->]]; cbn [strip_prefix].
-    + destruct (197 =? b) eqn:Q; auto. nb. lia.
-    + destruct (226 =? b) eqn:Q; auto. nb. lia.
+  destruct (lower b =? lower c) eqn:E; nb; auto.
+  destruct (lower_cases b) as [[? Eb]|[? Eb]]; destruct (lower_cases c) as [[? Ec]|[? Ec]]; rewrite Eb, Ec in E; lia.
 Qed.
 
 Lemma match_arg_complete : forall k a r, arg_spec k a -> (k = ADigits -> head_is (fun b => ~ digitP b) r) ->
@@ -362,7 +317,7 @@ Qed.
 
 (* ------------------------------------------------------------------ one form *)
 Definition LangF (f : form) (a s : list N) : Prop :=
-  exists sp kw tl, spaces sp /\ ci_str true (f_kw f) kw /\ Tail tl /\
+  exists sp kw tl, spaces sp /\ ci_str (f_kw f) kw /\ Tail tl /\
     match f_q f with
     | QNoArg => a = [] /\ s = sp ++ kw ++ tl
     | QOpt => exists q1 q2, optq q1 /\ optq q2 /\ ArgOk (f_args f) a /\ s = sp ++ kw ++ q1 ++ a ++ q2 ++ tl
@@ -620,9 +575,9 @@ Lemma classify_not_invalid : forall s a, classify s <> Some (InvalidShardingKey,
 Proof. intros s a H. apply classify_exact in H. inversion H. Qed.
 
 (* ---- documented (ASCII) language vs the regex crate's ---- *)
-Lemma ci_char_mono : forall c w, ci_char false c w -> ci_char true c w.
+Lemma ci_char_mono : forall c w, ci_char false c w -> ci_char c w.
 Proof. intros c w H. inversion H; subst; try discriminate; constructor; auto. Qed.
-Lemma ci_str_mono : forall k w, ci_str false k w -> ci_str true k w.
+Lemma ci_str_mono : forall k w, ci_str false k w -> ci_str k w.
 Proof. induction 1; constructor; auto using ci_char_mono. Qed.
 
 Lemma LangDoc_Lang : forall c a s, LangDoc c a s -> Lang c a s.
@@ -636,9 +591,9 @@ Qed.
 Lemma is_ascii_app : forall x y, is_ascii (x ++ y) = is_ascii x && is_ascii y.
 Proof. intros. unfold is_ascii. apply forallb_app. Qed.
 
-Lemma ci_char_ascii : forall c w, ci_char true c w -> is_ascii w = true -> ci_char false c w.
+Lemma ci_char_ascii : forall c w, ci_char c w -> is_ascii w = true -> ci_char false c w.
 Proof. intros c w H A. inversion H; subst; try (constructor; auto; fail); vm_compute in A; discriminate. Qed.
-Lemma ci_str_ascii : forall k w, ci_str true k w -> is_ascii w = true -> ci_str false k w.
+Lemma ci_str_ascii : forall k w, ci_str k w -> is_ascii w = true -> ci_str false k w.
 Proof.
   induction 1; intros A; [constructor|]. rewrite is_ascii_app in A. apply andb_true_iff in A. destruct A.
   constructor; auto using ci_char_ascii.
@@ -671,10 +626,10 @@ Proof. induction w; [constructor|]. change (a :: w) with ([a] ++ w). constructor
 Definition ArgP (c : cmd) (a : list N) : Prop :=
   match c with
   | SetShardingKey => digits1 a
-  | SetShard => digits1 a \/ ci_str true (B "ANY") a
-  | SetServerRole => ci_str true (B "PRIMARY") a \/ ci_str true (B "REPLICA") a \/ ci_str true (B "ANY") a \/
-                     ci_str true (B "AUTO") a \/ ci_str true (B "DEFAULT") a
-  | SetPrimaryReads => ci_str true (B "on") a \/ ci_str true (B "off") a \/ ci_str true (B "default") a
+  | SetShard => digits1 a \/ ci_str (B "ANY") a
+  | SetServerRole => ci_str (B "PRIMARY") a \/ ci_str (B "REPLICA") a \/ ci_str (B "ANY") a \/
+                     ci_str (B "AUTO") a \/ ci_str (B "DEFAULT") a
+  | SetPrimaryReads => ci_str (B "on") a \/ ci_str (B "off") a \/ ci_str (B "default") a
   | InvalidShardingKey => False
   | _ => a = []
   end.
@@ -788,6 +743,9 @@ Proof.
 Qed.
 
 Definition recognised (i : input) : Prop := exists s, classify s = Some (fst (fst i), snd (fst i)).
+Lemma rec_by : forall (i : input) s, classify s = Some (fst (fst i), snd (fst i)) -> recognised i.
+Proof. intros i s H. exists s. exact H. Qed.
+
 Definition input_ok (e : env) (i : input) : Prop :=
   recognised i /\ known_c13 (fst (fst i)) (snd (fst i)) = false /\ snd i < e_shards e.
 
@@ -846,9 +804,9 @@ Lemma digits_commands_recognised : forall d, digits1 d ->
   classify (B "SET SHARD TO " ++ d) = Some (SetShard, d).
 Proof.
   intros d D. split; apply classify_exact.
-  - pose proof (L_set_sharding_key true [] (B "SET SHARDING KEY TO ") [] d [] []) as H.
+  - pose proof (L_set_sharding_key [] (B "SET SHARDING KEY TO ") [] d [] []) as H.
     cbn [app] in H. rewrite app_nil_r in H. apply H; [constructor | apply ci_str_refl | left; auto | auto | left; auto | apply Tail_nil].
-  - pose proof (L_set_shard true [] (B "SET SHARD TO ") [] d [] []) as H.
+  - pose proof (L_set_shard [] (B "SET SHARD TO ") [] d [] []) as H.
     cbn [app] in H. rewrite app_nil_r in H. apply H; [constructor | apply ci_str_refl | left; auto | auto | left; auto | apply Tail_nil].
 Qed.
 
